@@ -757,6 +757,49 @@ impl Regex {
     }
 }
 
+/// Neutral, public form of the private internal regex tree (verification hook, add-only).
+#[cfg(feature = "verif-hooks")]
+#[derive(Clone, Debug, PartialEq, Eq)]
+pub enum VerifRegexTree {
+    /// `RegexInternal::Single`: the (byte, marker) letters, in the stored order.
+    Single(Vec<(u8, usize)>),
+    /// `RegexInternal::Concat`.
+    Concat(Vec<VerifRegexTree>),
+    /// `RegexInternal::Union`.
+    Union(Vec<VerifRegexTree>),
+    /// `RegexInternal::Inter`.
+    Inter(Vec<VerifRegexTree>),
+    /// `RegexInternal::Star(strict, _)`.
+    Star(bool, Box<VerifRegexTree>),
+    /// `RegexInternal::Complement`.
+    Complement(Box<VerifRegexTree>),
+}
+
+#[cfg(feature = "verif-hooks")]
+impl Regex {
+    /// Dumps the private internal tree of a regular expression (verification hook).
+    pub fn verif_dump(&self) -> VerifRegexTree {
+        match &self.content {
+            RegexInternal::Single(bytes) => {
+                VerifRegexTree::Single(bytes.iter().map(|l| (l.char, l.marker)).collect())
+            }
+            RegexInternal::Concat(v) => {
+                VerifRegexTree::Concat(v.iter().map(|r| r.verif_dump()).collect())
+            }
+            RegexInternal::Union(v) => {
+                VerifRegexTree::Union(v.iter().map(|r| r.verif_dump()).collect())
+            }
+            RegexInternal::Inter(v) => {
+                VerifRegexTree::Inter(v.iter().map(|r| r.verif_dump()).collect())
+            }
+            RegexInternal::Star(strict, r) => {
+                VerifRegexTree::Star(*strict, Box::new(r.verif_dump()))
+            }
+            RegexInternal::Complement(r) => VerifRegexTree::Complement(Box::new(r.verif_dump())),
+        }
+    }
+}
+
 #[cfg(test)]
 mod tests {
 
